@@ -270,6 +270,10 @@ def main(argv=None):
                         cov[k][kk] = cov[k].get(kk, 0) + vv
                 else:
                     cov[k] = v
+    if cov.get("bounded_runtime_cases"):
+        cov["evaluations"] = max(cov["evaluations"], int(cov["bounded_runtime_cases"]))
+        if cov.get("bounded_nontrivial_cases") is not None:
+            cov["distinct_nontrivial"] = int(cov["bounded_nontrivial_cases"]) + tot_dis
     ev = {"property_id": pid, "tier": tier, "seed": _SEED, "level": level, "coverage": cov,
           "assumptions": meta.get("assumptions", []), "wall_s": round(time.time() - t0, 2),
           "violations": len(violations)}
